@@ -9,8 +9,8 @@ matrix, labels, ordering of updates) are in `Props/C01Mech.lean`.
 namespace PyRates.Net
 
 /-- The checker decides the specification. -/
-theorem C01_check_iff (I : Interp) (c : Circuit) (σ ρ : Path → Rat) :
-    checkSolution I c σ ρ = true ↔ IsSolution I c σ ρ := by
+theorem C01_check_iff (I : Interp) (c : Circuit) (ext : Path → List Rat) (σ ρ : Path → Rat) :
+    checkSolution I c ext σ ρ = true ↔ IsSolution I c ext σ ρ := by
   unfold checkSolution IsSolution
   simp only [List.all_eq_true]
   constructor
@@ -36,9 +36,9 @@ theorem C01_check_iff (I : Interp) (c : Circuit) (σ ρ : Path → Rat) :
 
 /-- **Soundness of the executable model.**  Whatever `solve` returns is a solution of the user's equations in the sense of
 the specification, and the reported derivative of every state variable is its own equation evaluated under that solution. -/
-theorem C01_solve_sound (I : Interp) (c : Circuit) (σ : Path → Rat) (fuel : Nat)
-    (tbl ds : List (Path × Rat)) (h : solve I c σ fuel = some (tbl, ds)) :
-    IsSolution I c σ (tableLookup tbl) ∧
+theorem C01_solve_sound (I : Interp) (c : Circuit) (ext : Path → List Rat) (σ : Path → Rat) (fuel : Nat)
+    (tbl ds : List (Path × Rat)) (h : solve I c ext σ fuel = some (tbl, ds)) :
+    IsSolution I c ext σ (tableLookup tbl) ∧
     ds = c.stateEqs.map (fun (p, n, o, e) => (p, deriv I (tableLookup tbl) n o e)) := by
   unfold solve at h
   simp only [Option.bind_eq_bind, Option.bind_eq_some_iff] at h
@@ -48,7 +48,7 @@ theorem C01_solve_sound (I : Interp) (c : Circuit) (σ : Path → Rat) (fuel : N
     injection h2 with h2
     injection h2 with h3 h4
     subst h3
-    exact ⟨(C01_check_iff I c σ _).mp hc, h4.symm⟩
+    exact ⟨(C01_check_iff I c ext σ _).mp hc, h4.symm⟩
   · cases h2
 
 end PyRates.Net
